@@ -16,7 +16,6 @@ import (
 	"os"
 	"path/filepath"
 	"regexp"
-	"runtime/pprof"
 	"sort"
 	"strconv"
 	"strings"
@@ -45,7 +44,7 @@ type sizes struct {
 
 func tierSizes() sizes {
 	if lib.Thorough() {
-		return sizes{evmCases: 200000, appCases: 320, workers: 16}
+		return sizes{evmCases: 120000, appCases: 240, workers: 16}
 	}
 	return sizes{evmCases: 1400, appCases: 6, workers: 8}
 }
@@ -76,7 +75,7 @@ func main() {
 	})
 	q := int64(1)
 	if lib.Thorough() {
-		q = 50
+		q = 40
 	}
 	run.Require("requests", 5000*q)
 	run.Require("path_evm_requests", 4800*q)
@@ -114,11 +113,6 @@ func worker() {
 	nw, _ := strconv.Atoi(os.Args[3])
 	out := os.Args[4]
 	installCallback()
-	if pf := os.Getenv("C14_PROF"); pf != "" {
-		f, _ := os.Create(pf)
-		pprof.StartCPUProfile(f)
-		defer pprof.StopCPUProfile()
-	}
 	sz := tierSizes()
 	scratch := lib.Scratch(prop)
 	defer os.RemoveAll(scratch)
